@@ -133,6 +133,13 @@ def guarded_first_cond(loop):
         pos = end + 1 + g.end()
 
 
+def loop_var(loop, cls, default):
+    """the name of the variable of a range-for over `cls` objects at the head of `loop` (a renamed loop variable is a
+    harmless rewrite: the vocabulary follows it)"""
+    m = re.match(r"for\s*\(\s*(?:const\s+)?%s\s*&?\s*(\w+)\s*:" % cls, loop)
+    return m.group(1) if m else default
+
+
 # ---------------------------------------------------------------- decision expressions
 class Dec:
     """translate a C++ boolean expression into Gallina, given a vocabulary
@@ -477,7 +484,7 @@ def facts():
         b = func_body(prober, r"void\s+ProberPrivate::onMessageReceived\s*\(")
         loop = b[b.index("for"):]
         cond = guarded_first_cond(loop)
-        return Dec(cond, merge(rec_vocab("record", "r"), rec_vocab("proposedRecord", "proposed"))).parse()
+        return Dec(cond, merge(rec_vocab(loop_var(loop, "Record", "record"), "r"), rec_vocab("proposedRecord", "proposed"))).parse()
 
     decision("prober_conflict", "(r proposed : record)",
              "(andb (bs_eqb (r_name r) (r_name proposed)) (N.eqb (r_type r) (r_type proposed)))", prober_conflict)
@@ -486,7 +493,7 @@ def facts():
         b = func_body(hostname, r"void\s+HostnamePrivate::onMessageReceived\s*\(")
         loop = b[b.index("for"):]
         cond = guarded_first_cond(loop)
-        return Dec(cond, merge(rec_vocab("record", "r"), {"hostname": ("(Some hostname)", "bstr")})).parse()
+        return Dec(cond, merge(rec_vocab(loop_var(loop, "Record", "record"), "r"), {"hostname": ("(Some hostname)", "bstr")})).parse()
 
     decision("hostname_conflict", "(r : record) (hostname : list N)",
              "(andb (orb (N.eqb (r_type r) T_A) (N.eqb (r_type r) T_AAAA)) (bs_eqb (r_name r) (Some hostname)))",
@@ -498,7 +505,7 @@ def facts():
         loop = b[k:]
         loop = loop[loop.index("for"):]
         cond = guarded_first_cond(loop)
-        return Dec(cond, merge(query_vocab("query", "q"), {"hostname": ("(Some hostname)", "bstr")})).parse()
+        return Dec(cond, merge(query_vocab(loop_var(loop, "Query", "query"), "q"), {"hostname": ("(Some hostname)", "bstr")})).parse()
 
     decision("hostname_question", "(q : query) (hostname : list N)",
              "(andb (orb (N.eqb (q_type q) T_A) (N.eqb (q_type q) T_AAAA)) (bs_eqb (q_name q) (Some hostname)))",
@@ -518,7 +525,7 @@ def facts():
         b = func_body(resolver, r"void\s+ResolverPrivate::onMessageReceived\s*\(")
         loop = b[b.index("for"):]
         cond = guarded_first_cond(loop)
-        return Dec(cond, merge(rec_vocab("record", "r"), {"name": ("name", "bstr")})).parse()
+        return Dec(cond, merge(rec_vocab(loop_var(loop, "Record", "record"), "r"), {"name": ("name", "bstr")})).parse()
 
     decision("resolver_filter", "(r : record) (name : bstr)",
              "(andb (bs_eqb (r_name r) name) (orb (N.eqb (r_type r) T_A) (N.eqb (r_type r) T_AAAA)))",
@@ -531,7 +538,8 @@ def facts():
         tail = loop[loop.index(cond) + len(cond):]
         if not re.match(r"\s*\)\s*\{?\s*emit\s+q->resolved\s*\(", tail):
             raise ValueError("the second if of the record loop no longer guards resolved()")
-        return Dec(cond, merge(rec_vocab("record", "r"), {"addresses.contains(record.address())": ("known", "bool")})).parse()
+        rv = loop_var(loop, "Record", "record")
+        return Dec(cond, merge(rec_vocab(rv, "r"), {"addresses.contains(%s.address())" % rv: ("known", "bool")})).parse()
 
     decision("resolver_report", "(r : record) (known : bool)", "(andb (negb (N.eqb (r_ttl r) 0%N)) (negb known))", resolver_report)
 
@@ -542,7 +550,7 @@ def facts():
             b = func_body(provider, r"void\s+ProviderPrivate::onMessageReceived\s*\(")
             loop = b[b.index("for"):]
             cond = nth_cond(loop, "if", n)
-            v = merge(query_vocab("query", "q"), rec_vocab("ptrRecord", "ptr"), rec_vocab("srvRecord", "srv"),
+            v = merge(query_vocab(loop_var(loop, "Query", "query"), "q"), rec_vocab("ptrRecord", "ptr"), rec_vocab("srvRecord", "srv"),
                       rec_vocab("txtRecord", "txt"))
             return Dec(cond, v).parse()
         return g
@@ -558,7 +566,7 @@ def facts():
             b = func_body(provider, r"void\s+ProviderPrivate::onMessageReceived\s*\(")
             k = [m.start() for m in re.finditer(r"\bfor\s*\(", b)][1]
             cond = nth_cond(b[k:], "if", n)
-            v = merge(rec_vocab("record", "r"), rec_vocab("ptrRecord", "ptr"), rec_vocab("srvRecord", "srv"),
+            v = merge(rec_vocab(loop_var(b[k:], "Record", "record"), "r"), rec_vocab("ptrRecord", "ptr"), rec_vocab("srvRecord", "srv"),
                       rec_vocab("txtRecord", "txt"))
             return Dec(cond, v).parse()
         return g
@@ -614,7 +622,7 @@ def facts():
     # --- browser.cpp: which records of a response the first loop of onMessageReceived keeps, and which service types
     #     updateService ignores
     # the build is against Qt 5: of `#if (QT_VERSION >= ...) A #else B #endif` keep B (the braces of A and B overlap)
-    browser5 = re.sub(r"#if\s*\(QT_VERSION\s*>=[^\n]*\n(.*?)#else[^\n]*\n(.*?)#endif[^\n]*\n", lambda m: m.group(2), browser, flags=re.S)
+    browser5 = re.sub(r"#\s*if\s*\(\s*QT_VERSION\s*>=[^\n]*\n(.*?)#\s*else[^\n]*\n(.*?)#\s*endif[^\n]*\n", lambda m: m.group(2), browser, flags=re.S)
 
     def browser_any():
         b = func_body(browser5, r"void\s+BrowserPrivate::onMessageReceived\s*\(")
@@ -635,8 +643,9 @@ def facts():
             seg = loop[k.end():]
             seg = seg[:seg.index("break")]
             cond = nth_cond(seg, "if", n)
-            v = merge(rec_vocab("record", "r"), {"any": ("any", "bool"), "type": ("type", "bstr"),
-                      'record.name().endsWith("."+type)': ("(ends_with ([DOT] ++ bs_data type) (bs_data (r_name r)))", "bool")})
+            rv = loop_var(loop, "Record", "record")
+            v = merge(rec_vocab(rv, "r"), {"any": ("any", "bool"), "type": ("type", "bstr"),
+                      '%s.name().endsWith("."+type)' % rv: ("(ends_with ([DOT] ++ bs_data type) (bs_data (r_name r)))", "bool")})
             return Dec(cond, v).parse()
         return g
 
